@@ -399,7 +399,7 @@ class C15Check:
     property_id = "C15"
     name = "c15-run-sim"
     level = "exploration"
-    rule = ("each run = one generated invariant test: setUp CREATEs 1-2 instances of a target with 2-4 mutators drawn from {inc, set(x) "
+    rule = ("(15 % of the cases are factory-style: handlers makeLow / makeHigh deploy a child of one contract type with a different immutable, trip() reads it) each run = one generated invariant test: setUp CREATEs 1-2 instances of a target with 2-4 mutators drawn from {inc, set(x) "
             "with a post-write branch, add(x&0xff), double, reset, onlyOwner (sender check), pay (payable), touch (timestamp), guarded "
             "(internal assert)}, invariant over its two slots (v != K, v <= K, w == 0, v + w != K), --invariant-depth 0-3, optional "
             "Foundry filter getters (target/exclude senders, contracts, selectors; hand-encoded ABI return data); run_contract under the "
